@@ -48,6 +48,8 @@ pub struct OracleState {
 	/// (node, chan, message): protocol errors about a channel the emitter no longer has, judged
 	/// once the emitter's ChannelClosed event has told why
 	pub suspect_errors: Vec<(usize, usize, String)>,
+	/// (node, chan, message): closures that only answer the peer's closure, judged at the end
+	pub suspect_closes: Vec<(usize, usize, String)>,
 	/// C07-5: (node, claim id) -> feerate last requested by a BumpTransaction event
 	pub last_bump_rate: BTreeMap<(usize, [u8; 32]), u32>,
 	/// (node, chan) -> step at which a ChannelForceClosed{should_broadcast: true} update reached Watch
@@ -1477,8 +1479,20 @@ impl World {
 		if self.dead {
 			return;
 		}
-		for (_, _, msg) in std::mem::take(&mut self.oracle.suspect_errors) {
-			self.violate("C01", "C01-3 protocol error in honest operation", msg);
+		for (_, c, msg) in std::mem::take(&mut self.oracle.suspect_errors) {
+			let explained = self.refresh_coop_done(c)
+				|| self.chans[c].force_closed_by.is_some()
+				|| self.chans[c].close_requested && !self.chans[c].coop_requested
+				|| self.chans[c].tainted;
+			if !explained {
+				self.violate("C01", "C01-3 protocol error in honest operation", msg);
+			}
+		}
+		for (_, c, msg) in std::mem::take(&mut self.oracle.suspect_closes) {
+			let explained = self.refresh_coop_done(c) || self.chans[c].force_closed_by.is_some() || self.chans[c].tainted;
+			if !explained {
+				self.violate("C01", "C01-3 channel closed in honest operation", msg);
+			}
 		}
 		let pays = self.pays.clone();
 		for p in pays.iter() {
